@@ -209,6 +209,38 @@ def sans (ids : List Identifier) (c : Csr) : M SansOut :=
               else match posLoop (fun a b => a == b) San.uri orderURIs total csrURIs 0 index acc with
                 | .crash => .crash
                 | .val none => .val .badCSR
+                -- (since /repo 167bc71) only the entries written are returned: `sans[:index]`
+                | .val (some (_, acc)) => .val (.ok acc)
+
+/-- `sans` as it was before /repo 167bc71: the slice sized by the CSR's names was returned whole, an
+    entry never written (`San.empty`) reached the template as an empty DNS name (C13-F3) -/
+def sansHistoric (ids : List Identifier) (c : Csr) : M SansOut :=
+  if c.emails > 0 then .val .badCSR
+  else match wireUris ids with
+  | none => .val .ise
+  | some tmpOrderURIs =>
+    let orderNames := uniqueSortedLowerNames (valuesOf .dns ids)
+    let orderIPs := uniqueSortedIPs (ipsOf ids)
+    let total := c.dns.length + c.ips.length + c.uris
+    if c.dns.length ≠ orderNames.length then .val .badCSR
+    else match posLoop (fun a b => a == b) San.dns orderNames total c.dns 0 0 [] with
+      | .crash => .crash
+      | .val none => .val .badCSR
+      | .val (some (index, acc)) =>
+        if c.ips.length ≠ orderIPs.length then .val .badCSR
+        else match posLoop ipsAreEqual (fun x => San.ip (to16 x)) orderIPs total c.ips 0 index acc with
+          | .crash => .crash
+          | .val none => .val .badCSR
+          | .val (some (index, acc)) =>
+            if c.uris ≠ tmpOrderURIs.length then .val .badCSR
+            else
+              let csrURIs := sortU c.uriStrs
+              let orderURIs := sortU tmpOrderURIs
+              -- (since /repo b009637) the de-duplicated lists must have the same length
+              if csrURIs.length ≠ orderURIs.length then .val .badCSR
+              else match posLoop (fun a b => a == b) San.uri orderURIs total csrURIs 0 index acc with
+                | .crash => .crash
+                | .val none => .val .badCSR
                 | .val (some (index, acc)) => .val (.ok (acc ++ List.replicate (total - index) San.empty))
 
 /-- getAuthorizationFingerprint: the first non-empty fingerprint among the order's authorizations -/
